@@ -43,7 +43,7 @@ def build(ctx, case):
         raw = make_torch_lm(lm_seed, LETTERS[:C - 1])
         lm = LMWrapper(raw, LETTERS[:C - 1], "cpu")
         if start is not None:
-            init_h = lm.initial_h_from_line("".join(LETTERS[c] for c in start))
+            init_h = ctx.must("initial_h_from_line_raises", lm.initial_h_from_line, "".join(LETTERS[c] for c in start))
         else:
             init_h = None
 
